@@ -11,6 +11,8 @@
 (*   sched  a gated schedule: per evaluation the result, the result of     *)
 (*          the isolated sequential run and the call's time bracket        *)
 (*   time   a time program evaluated under four process time zones         *)
+(*   crash  a replay process died of a fatal error of the Go runtime       *)
+(*          raised inside the library (e.g. "concurrent map writes")       *)
 (* Every verdict is computed from FPRegistryCore's denotations.            *)
 (***************************************************************************)
 EXTENDS C04, Json, Params
@@ -55,13 +57,16 @@ AfterProblem(a) ==
   ELSE IF a.perm # "err" THEN "permissive-leaked"
   ELSE ""
 
+(* A call that fails may stop applying options early (the property does not *)
+(* say that every option of a failing call is applied): only the observed   *)
+(* prefix is compared then.                                                  *)
 CallProblem(call, ob) ==
   LET den == CompileDen(call, call.eid)
       want == IF den.ok THEN "ok" ELSE "cerr"
   IN IF ob.out \in {"panic", "timeout"} THEN "compile|" \o ob.out
-     ELSE IF Len(ob.steps) # Len(call.opts) THEN "options-applied|count"
-     ELSE IF \E k \in 1..Len(call.opts) : ~StepOK(call, ob.steps[k], k)
-            THEN "config-after-option|" \o OptCode(call.opts[CHOOSE k \in 1..Len(call.opts) : ~StepOK(call, ob.steps[k], k)])
+     ELSE IF Len(ob.steps) > Len(call.opts) \/ (den.ok /\ Len(ob.steps) # Len(call.opts)) THEN "options-applied|count"
+     ELSE IF \E k \in 1..Len(ob.steps) : ~StepOK(call, ob.steps[k], k)
+            THEN "config-after-option|" \o OptCode(call.opts[CHOOSE k \in 1..Len(ob.steps) : ~StepOK(call, ob.steps[k], k)])
      ELSE IF ob.out # want THEN "compile|want-" \o want \o "-got-" \o ob.out
      ELSE IF call.api = "fhirpath" /\ den.ok /\ ~HistEvalOK(den, ob.eval) THEN "bound-function|eval-" \o ob.eval.k
      ELSE IF call.api = "fhirpath" /\ den.ok /\ ~HistEvalOK(den, ob.late) THEN "bound-function|changed-after-later-calls|eval-" \o ob.late.k
@@ -83,9 +88,13 @@ HistVerdict(o) ==
 (* sched *)
 SameOutcome(a, b) == a.k = b.k /\ (a.k = "ok" => SeqSame(a.items, b.items))
 
-EvalProblem(den, call, ob) ==
+EvalProblem(den, call, ob, style) ==
   LET want == EvalDen(den, call, 0)
-  IN IF ~EvalMatches(ob.out, want, call.opts, ob.t0, ob.t1)
+  IN IF style = "concat"
+       THEN (IF ~ConcatMatches(ob.out, want) THEN "result|concat-" \o KindOf(ob.out)
+             ELSE IF ~ConcatMatches(ob.iso, want) THEN "isolated-result|concat-" \o KindOf(ob.iso)
+             ELSE "")
+     ELSE IF ~EvalMatches(ob.out, want, call.opts, ob.t0, ob.t1)
        THEN "result|" \o EvalDiff(ob.out, want, call.opts, ob.t0, ob.t1)
      ELSE IF ~EvalMatches(ob.iso, want, call.opts, ob.i0, ob.i1)
        THEN "isolated-result|" \o EvalDiff(ob.iso, want, call.opts, ob.i0, ob.i1)
@@ -103,7 +112,7 @@ SchedVerdict(o) ==
   LET call == ModelCall(o.compile)
       den == CompileDen(call, call.eid)
       n == Len(o.evals)
-      prob(j) == EvalProblem(den, o.evals[j], o.obs[j])
+      prob(j) == EvalProblem(den, o.evals[j], o.obs[j], o.compile.style)
   IN IF ~den.ok THEN Bad(o.id, "malformed|schedule-program-does-not-compile-in-the-model", "")
      ELSE IF o.cerr # "" THEN Bad(o.id, "sched|compile-failed", "")
      ELSE IF Len(o.obs) # n THEN Bad(o.id, "malformed|sched-obs-count", "")
@@ -127,6 +136,8 @@ TimeProblem(den, call, tzs) ==
      ELSE IF \E a, b \in 1..Len(tzs) : \E i \in nows :
                tzs[a].out.items[i].off # tzs[b].out.items[i].off
        THEN "offset-depends-on-process-tz"
+     ELSE IF HasOverride(call.opts) /\ \E a, b \in 1..Len(tzs) : ~SameOutcome(tzs[a].out, tzs[b].out)
+       THEN "result-depends-on-process-tz"
      ELSE ""
 
 TimeVerdict(o) ==
@@ -143,6 +154,7 @@ Verdict(o) ==
     [] o.kind = "hist"  -> HistVerdict(o)
     [] o.kind = "sched" -> SchedVerdict(o)
     [] o.kind = "time"  -> TimeVerdict(o)
+    [] o.kind = "crash" -> Bad(o.id, "crash|runtime-fatal|" \o o.fatal \o "|" \o o.site, "every call returns")
     [] OTHER -> Bad(o.id, "malformed|kind", "")
 
 VARIABLE i
